@@ -3,11 +3,18 @@
    own notion of comment, and a letter or digit outside comments always sits in a Word, Int,
    ZeroInt or Escaped token - for the character classification dumped from the
    implementation on this run (Gen/CharClass.v) and for any other classification with the
-   two stated properties.  That every such token of an error-free event stream lies in the
-   span of an event is decided at run time by the exact L-ev correspondence and the monitor;
-   its statement is kept visible below. *)
+   two stated properties.
+   Proved as well (every input, every configuration, every extension set): every such token of
+   the cooklang part whose payload is not blank lies inside the span of an event of the
+   pull-parser model (C05_conservation; no "error-free" hypothesis is needed), and, composed
+   with the two facts above and the anatomy of the front matter split: every letter or digit of
+   the input that is not inside a comment lies within the span of an event
+   (C05_no_content_dropped).  The model is tied to the implementation by the L-ev
+   correspondence; the monitor evaluates the same statement on the implementation's events. *)
 From CL Require Import Base.StrLemmas Model.Lexer Model.CommentMask Model.Parser
-  Proofs.MaskProofs Proofs.MaskGen Gen.CharClass.
+  Proofs.MaskProofs Proofs.MaskGen Gen.CharClass
+  Proofs.ParserSeg Proofs.ParserCover Proofs.ParserCoverBlock Proofs.ParserCoverDoc Proofs.ParserCoverChars
+  Proofs.CoverGen.
 
 Theorem C05_mask_is_lexer :
   forall s off ts, lex_at U s off = Some ts -> mask s = token_mask ts.
@@ -33,8 +40,9 @@ Theorem C05_mask_length : forall s, length (mask s) = length s.
 Proof. exact (scan_length MNormal). Qed.
 Print Assumptions C05_mask_length.
 
-(* the span an event covers (as the monitor computes it: harness/src/bin/pmon.rs ev_span) *)
-Definition event_span (e : pevent) : option (N * N) :=
+(* the span an event covers (as the monitor computes it: harness/src/bin/pmon.rs ev_span);
+   the definition lives in Proofs/ParserCover.v, this is its text *)
+Example C05_event_span_def : forall e, event_span e =
   match e with
   | EvYaml t | EvText t => Some (text_span t)
   | EvMetadata k v => Some (fst (text_span k), N.max (snd (text_span v)) (snd (text_span k)))
@@ -44,13 +52,199 @@ Definition event_span (e : pevent) : option (N * N) :=
   | EvTimer t => Some (t_span t)
   | _ => None
   end.
+Proof. reflexivity. Qed.
 
-(* full statement (not yet a theorem; decided by correspondence + monitor on every run):
-   in an error-free event stream every content token outside comments is inside the span of
-   an event *)
+(* what a content token contributes: an escaped token `\x` contributes x, at the byte after the
+   backslash (the backslash itself is dropped by design: block_parser.rs text()) *)
+Example C05_payload_def : forall t,
+  payload t = (match kind t with KEscaped => tl (tstr t) | _ => tstr t end) /\
+  pstart t = (match kind t with KEscaped => tstart t + 1 | _ => tstart t end).
+Proof. intro t. split; reflexivity. Qed.
+
+(* the tokens of the cooklang part: after the front matter when there is one, at their byte
+   offsets in the whole input *)
+Example C05_cook_tokens_def : forall V cfg s, cook_tokens V cfg s =
+  match parse_frontmatter cfg s with
+  | Some fm => lex_at V (cook_text fm) (cook_off fm)
+  | None => lex_at V s 0
+  end.
+Proof. reflexivity. Qed.
+
+(* ---- the two layers under the document theorem -------------------------------------------- *)
+
+(* the block splitter (mod.rs next_block 251-301 with its trimming arithmetic) hands every
+   content token to the block it returns or leaves it in the remainder; when it returns no block
+   there is no content token left *)
+Theorem C05_split_covers :
+  forall fuel ts,
+    (forall blk r, next_block fuel ts = Some (blk, r) ->
+       forall t, In t ts -> content_kind (kind t) = true -> In t blk \/ In t r) /\
+    ((length ts < fuel)%nat -> next_block fuel ts = None ->
+       forall t, In t ts -> content_kind (kind t) = false).
+Proof. intros fuel ts. split; [apply next_block_content|apply next_block_none]. Qed.
+Print Assumptions C05_split_covers.
+
+(* parse_block (metadata entry, section, text block, step loop with the component parsers and
+   their recovery paths) on a located chain of tokens: the events pushed before stay, and every
+   non-blank content token of the block is inside the span of an event *)
+Theorem C05_block_covers :
+  forall (src : str) (cfg : pcfg) ts a b evs old_style evs',
+    seg src a ts b -> run_block ts evs (parse_block cfg old_style) = Done evs' ->
+    (exists es, evs' = es ++ evs) /\
+    forall t, In t ts -> content_kind (kind t) = true -> str_blank (payload t) = false ->
+      exists e sp, In e evs' /\ event_span e = Some sp /\ fst sp <= pstart t /\ tend t <= snd sp.
+Proof.
+  intros src cfg ts a b evs old evs' Hs H. destruct (run_block_cov src cfg ts a b evs old evs' Hs H) as (A & B).
+  split; [exact A|]. intros t Hi Hc Hb. exact (B t Hi (conj Hc Hb)).
+Qed.
+Print Assumptions C05_block_covers.
+
+Definition no_error_event (e : pevent) : Prop :=
+  match e with EvDiag d => d_err d = false | _ => True end.
+
+(* The statement as first written:
+
+     Definition C05_conservation_statement : Prop :=
+       forall (cfg : pcfg) (s : str) evs ts,
+         events U cfg s = Done evs -> lex U s = Some ts ->
+         Forall (fun e => match e with EvDiag d => d_err d = false | _ => True end) evs ->
+         Forall (fun t => content_kind (kind t) = true ->
+                          exists e sp, In e evs /\ event_span e = Some sp /\ fst sp <= tstart t /\ tend t <= snd sp) ts.
+
+   It asks too much in three ways, none of which concerns a letter or a digit:
+   (1) it wants the whole token inside a span, but the backslash of an escaped token is never
+       part of a text (input "\a": the token is bytes 0..2, the text event is 1..2) - refuted
+       below (C05_whole_token_statement_refuted);
+   (2) a content token whose payload is blank may vanish (a Word made of U+000B in a text
+       block line, the escaped blank of "= \  =", a lone trailing backslash): such a token
+       holds no letter or digit;
+   (3) with front matter the tokens the parser sees are those of the cooklang part, shifted by
+       cook_off, not those of the whole input (the YAML text is covered by the front matter
+       event, the fence lines hold no letter or digit: C05_no_content_dropped).
+   The statement that is true and says what C05 says about tokens: *)
 Definition C05_conservation_statement : Prop :=
   forall (cfg : pcfg) (s : str) evs ts,
-    events U cfg s = Done evs -> lex U s = Some ts ->
-    Forall (fun e => match e with EvDiag d => d_err d = false | _ => True end) evs ->
-    Forall (fun t => content_kind (kind t) = true ->
-                     exists e sp, In e evs /\ event_span e = Some sp /\ fst sp <= tstart t /\ tend t <= snd sp) ts.
+    events U cfg s = Done evs -> cook_tokens U cfg s = Some ts ->
+    Forall no_error_event evs ->
+    Forall (fun t => content_kind (kind t) = true -> str_blank (payload t) = false ->
+                     exists e sp, In e evs /\ event_span e = Some sp /\ fst sp <= pstart t /\ tend t <= snd sp) ts.
+
+Theorem C05_conservation : C05_conservation_statement.
+Proof.
+  intros cfg s evs ts He Ht _. apply Forall_forall. intros t Hi Hc Hb.
+  exact (events_cover U cfg s evs ts He Ht t Hi (conj Hc Hb)).
+Qed.
+Print Assumptions C05_conservation.
+
+(* the same for any classification, any configuration (also the pre-repair ones), and without
+   the "no error event" hypothesis: the parser never consumes a non-blank content token
+   without covering it, whether or not it also reports an error *)
+Theorem C05_conservation_any_stream :
+  forall (V : N -> ucls) (cfg : pcfg) (s : str) evs ts,
+    events V cfg s = Done evs -> cook_tokens V cfg s = Some ts ->
+    forall t, In t ts -> content_kind (kind t) = true -> str_blank (payload t) = false ->
+      exists e sp, In e evs /\ event_span e = Some sp /\ fst sp <= pstart t /\ tend t <= snd sp.
+Proof. intros V cfg s evs ts He Ht t Hi Hc Hb. exact (events_cover V cfg s evs ts He Ht t Hi (conj Hc Hb)). Qed.
+Print Assumptions C05_conservation_any_stream.
+
+(* the configuration of the code as it stands (all repairs in, every extension, debug build) *)
+Definition cfg_now : pcfg :=
+  {| p_ext := X_ALL; p_debug := true; p_strict_escape := false; p_note_label_old := false; p_fm_anywhere := false |}.
+
+Theorem C05_whole_token_statement_refuted :
+  ~ (forall (cfg : pcfg) (s : str) evs ts,
+       events U cfg s = Done evs -> lex U s = Some ts -> Forall no_error_event evs ->
+       Forall (fun t => content_kind (kind t) = true ->
+                        exists e sp, In e evs /\ event_span e = Some sp /\ fst sp <= tstart t /\ tend t <= snd sp) ts).
+Proof.
+  intro H.
+  assert (Eo : events U cfg_now [92; 97] =
+               Done [EvStart true; EvText {| toff := 0; frags := [{| ftext := [97]; foff := 1; fsoft := false |}] |}; EvEnd true])
+    by (vm_compute; reflexivity).
+  assert (El : lex U [92; 97] = Some [{| kind := KEscaped; tstr := [92; 97]; tstart := 0 |}])
+    by (vm_compute; reflexivity).
+  assert (Hn : Forall no_error_event
+           [EvStart true; EvText {| toff := 0; frags := [{| ftext := [97]; foff := 1; fsoft := false |}] |}; EvEnd true])
+    by (repeat constructor).
+  pose proof (H _ _ _ _ Eo El Hn) as Hx.
+  inversion Hx as [|? ? Ht _]; subst. destruct (Ht eq_refl) as (e & sp & Hi & Hs & Hlo & _).
+  cbn [tstart] in Hlo.
+  destruct Hi as [<-|[<-|[<-|[]]]]; cbn [event_span] in Hs; try discriminate.
+  injection Hs as <-. vm_compute in Hlo. apply Hlo. reflexivity.
+Qed.
+Print Assumptions C05_whole_token_statement_refuted.
+
+(* ---- every letter or digit of every input ------------------------------------------------- *)
+
+(* the comment flag of the i-th character, as the monitor computes it (vh::comment_mask from the
+   start of the cooklang part: there are no cooklang comments inside the front matter) *)
+Example C05_comment_at_def : forall cfg s i, comment_at cfg s i =
+  match parse_frontmatter cfg s with
+  | None => nth i (mask s) false
+  | Some fm =>
+      let k := (length s - length (cook_text fm))%nat in
+      if (i <? k)%nat then false else nth (i - k) (mask (cook_text fm)) false
+  end.
+Proof. reflexivity. Qed.
+
+Example C05_bytes_covered_def : forall evs a b, bytes_covered evs a b <->
+  exists e sp, In e evs /\ event_span e = Some sp /\ fst sp <= a /\ b <= snd sp.
+Proof. intros. reflexivity. Qed.
+
+(* C05: in an error-free event stream, the character c at byte offset [blen p] of the input, a
+   letter or digit outside comments, lies within the span of an event.  [p_fm_anywhere = false]
+   selects the repaired front matter detection (fences only at the top). *)
+Theorem C05_no_content_dropped :
+  forall (cfg : pcfg) (s : str) evs,
+    p_fm_anywhere cfg = false -> events U cfg s = Done evs -> Forall no_error_event evs ->
+    forall p c q, s = p ++ c :: q -> u_alnum (U c) = true -> comment_at cfg s (length p) = false ->
+      bytes_covered evs (blen p) (blen p + utf8_len c).
+Proof.
+  intros cfg s evs Hf He _.
+  exact (chars_covered U gen_special_breaks gen_alnum_not_struct gen_alnum_plain cfg s evs Hf He).
+Qed.
+Print Assumptions C05_no_content_dropped.
+
+Theorem C05_no_content_dropped_any_classification :
+  forall (V : N -> ucls),
+    (forall c, special c = true -> is_word_char V c = false /\ is_lex_ws V c = false) ->
+    (forall c, u_alnum (V c) = true ->
+       u_punct (V c) = false /\ is_lex_ws V c = false /\ single_kind c = None
+       /\ (c =? 10) = false /\ (c =? 13) = false /\ (c =? 62) = false /\ (c =? 45) = false /\ (c =? 91) = false) ->
+    (forall c, u_alnum (V c) = true -> uni_ws c = false /\ (c =? 92) = false) ->
+    forall (cfg : pcfg) (s : str) evs,
+      p_fm_anywhere cfg = false -> events V cfg s = Done evs ->
+      forall p c q, s = p ++ c :: q -> u_alnum (V c) = true -> comment_at cfg s (length p) = false ->
+        bytes_covered evs (blen p) (blen p + utf8_len c).
+Proof. exact chars_covered. Qed.
+Print Assumptions C05_no_content_dropped_any_classification.
+
+(* the hypotheses are satisfiable: front matter, a step with an ingredient and a comment; the
+   letter `s` of `salt` (character 18, byte 18) *)
+Example C05_hypotheses_satisfiable :
+  let s := [45;45;45;10; 116;58;32;120;10; 45;45;45;10; 65;100;100;32;64;115;97;108;116;123;49;37;103;125;32;45;45;32;99;10] in
+  exists evs, p_fm_anywhere cfg_now = false /\ events U cfg_now s = Done evs /\
+    forallb (fun e => match e with EvDiag d => negb (d_err d) | _ => true end) evs = true /\
+    nth 18 s 0 = 115 /\ u_alnum (U 115) = true /\ comment_at cfg_now s 18 = false.
+Proof. eexists. split; [reflexivity|]. split; [vm_compute; reflexivity|]. vm_compute. repeat split. Qed.
+
+(* frontmatter.rs before the repair 3c2d952: the first two fence lines were taken wherever they
+   were, the text before them silently dropped ("hello\n---\na: 1\n---\nstep": the `h`) *)
+Definition cfg_fm_anywhere : pcfg :=
+  {| p_ext := X_ALL; p_debug := true; p_strict_escape := false; p_note_label_old := false; p_fm_anywhere := true |}.
+
+Theorem C05_no_content_dropped_refuted_before_fix :
+  exists (cfg : pcfg) (s : str) evs p c q,
+    p_fm_anywhere cfg = true /\ events U cfg s = Done evs /\ Forall no_error_event evs /\
+    s = p ++ c :: q /\ u_alnum (U c) = true /\ comment_at cfg s (length p) = false /\
+    ~ bytes_covered evs (blen p) (blen p + utf8_len c).
+Proof.
+  exists cfg_fm_anywhere, [104;101;108;108;111;10; 45;45;45;10; 97;58;32;49;10; 45;45;45;10; 115;116;101;112].
+  eexists. exists [], 104. eexists.
+  split; [reflexivity|]. split; [vm_compute; reflexivity|]. split; [repeat constructor|].
+  split; [reflexivity|]. split; [vm_compute; reflexivity|]. split; [vm_compute; reflexivity|].
+  intros (e & sp & Hi & Hs & Hlo & Hhi). cbn [blen utf8_len] in Hlo, Hhi.
+  repeat (destruct Hi as [<-|Hi]; [cbn [event_span] in Hs; try discriminate; injection Hs as <-; vm_compute in Hlo; apply Hlo; reflexivity|]).
+  destruct Hi.
+Qed.
+Print Assumptions C05_no_content_dropped_refuted_before_fix.
